@@ -3,6 +3,7 @@ package main
 // C15 — the trie as a set of sequences under any history.
 
 import (
+	"bytes"
 	"encoding/json"
 	"fmt"
 	"math/rand/v2"
@@ -378,9 +379,11 @@ func init() {
 			{Name: "fanout", Run: c15Fanout},
 			{Name: "parallel", Race: true, Run: trieParallel},
 			firstCallUnit(firstTrie),
+			firstParallelUnit(parTrie),
 			{Name: "bigshapes", TShards: 2, Run: c15BigShapes},
 			{Name: "longmembers", Run: c15LongMembers},
 			{Name: "filldrain", QShards: 2, TShards: 6, Run: c15FillDrain},
+			{Name: "families", QShards: 2, TShards: 6, Run: c15Families},
 		},
 	})
 }
@@ -891,6 +894,91 @@ func c15FillDrain(c *Ctx) {
 			}
 			k.Count("histories", 1)
 			k.Nontrivial([]byte(fmt.Sprint("filldrain", prefix, profile)))
+		})
+	}
+}
+
+// c15Families: histories over FAMILIES of long keys — members that share a long
+// stem and branch off at depths next to 8, 16, 32, 64, 128, 192, 256 (one less,
+// exactly, one more), with tails of different lengths: Add a member, Delete a
+// member, Delete by a prefix that ends right before / at / after a branch
+// point, Add a member of the same family again. A trie that remembers where it
+// was last time (a path hint for long keys, a finger, per-depth marks every 64
+// levels) is consulted exactly here; short random keys never reach it. Has on
+// the touched key (and on its stem) after every step, the model comparison
+// (Has on probes, ForEach, JSON) every few steps and at the end.
+func c15Families(c *Ctx) {
+	n := c.N(300, 12000)
+	depths := []int{7, 8, 9, 15, 16, 17, 31, 32, 33, 63, 64, 65, 127, 128, 129, 191, 192, 193, 255, 256, 257}
+	for i := 0; i < n; i++ {
+		c.Case(int64(i), func(k *K) {
+			r := k.Rand()
+			alpha := []byte(pick(r, []string{"ACGT", "ab", "ACGTN", "\x00\x01\xff"}))
+			stem := randSeq(r, alpha, 300)
+			// the family: members branch off the stem at chosen depths
+			var pool []string
+			branch := []int{}
+			for j := 0; j < 2+r.IntN(4); j++ {
+				branch = append(branch, pick(r, depths))
+			}
+			for _, d := range branch {
+				for v := 0; v < 1+r.IntN(3); v++ {
+					tail := randSeq(r, alpha, pick(r, []int{1, 2, 3, 10, 70, 130}))
+					if tail[0] == stem[d] { // make sure it leaves the stem at depth d
+						tail[0] = alpha[(bytes.IndexByte(alpha, stem[d])+1)%len(alpha)]
+					}
+					pool = append(pool, string(stem[:d])+string(tail))
+				}
+				pool = append(pool, string(stem[:d+pick(r, []int{1, 2, 40})]))
+			}
+			t, m := trie.New(), newSetModel()
+			var hist []trieOp
+			k.Input("branch_depths", fmt.Sprint(branch))
+			k.Input("history", func() string { return opsString(hist) })
+			steps := 12 + r.IntN(30)
+			for st := 0; st < steps; st++ {
+				var o trieOp
+				key := pool[r.IntN(len(pool))]
+				switch r.IntN(7) {
+				case 0, 1, 2:
+					o = trieOp{false, key}
+				case 3:
+					o = trieOp{true, key}
+				case 4: // by a prefix that ends around a branch point
+					d := branch[r.IntN(len(branch))] + r.IntN(3) - 1
+					o = trieOp{true, string(stem[:max(1, d)])}
+				case 5: // by a prefix of a member that ends right after it left the stem
+					d := min(len(key), branch[r.IntN(len(branch))]+1)
+					o = trieOp{true, key[:max(1, d)]}
+				default: // a new member of the family
+					d := branch[r.IntN(len(branch))]
+					o = trieOp{false, string(stem[:d]) + string(randSeq(r, alpha, 1+r.IntN(80)))}
+				}
+				hist = append(hist, o)
+				if !applyOp(k, t, m, o, fmt.Sprintf("step %d", st)) {
+					return
+				}
+				for _, probe := range []string{o.s, o.s[:len(o.s)/2+1], key} {
+					if got, want := t.Has([]byte(probe)), m.Has(probe); got != want {
+						k.Failf("has", "after step %d (%s): Has(%.40q… of %d bytes) = %v, model says %v", st, o, probe, len(probe), got, want)
+						return
+					}
+				}
+				if st%5 == 4 || st == steps-1 {
+					probes := append(append([]string{""}, pool...), string(stem[:64]), string(stem[:65]), string(stem))
+					if !observeTrie(k, t, m, probes, fmt.Sprintf("after step %d", st)) {
+						return
+					}
+					if st == steps-1 {
+						if t2 := jsonRebuild(k, t, "at the end of a history over a family of long keys"); t2 == nil || !observeTrie(k, t2, m, probes, "JSON-rebuilt trie") {
+							return
+						}
+					}
+				}
+			}
+			k.Count("histories", 1)
+			k.Count("family_histories", 1)
+			k.Nontrivial([]byte(fmt.Sprint("families", branch)), stem[:16])
 		})
 	}
 }
